@@ -38,6 +38,20 @@ CHECKS = {
             "is checked by TLC to be positive, equal to base*2^v whenever that fits a Duration, and not smaller than the value for a lower view.",
             "Trusted: BigNat.tla; the saturation value itself is not pinned (any positive monotone value is accepted once base*2^v exceeds int64).",
             "DESIGN.md 5 C19"),
+    "C01": ("model_checking", 'TLC trace validation (Trace_Cluster.tla over LHNode.tla/LHMessages.tla) of executions of N real nodes under a random adversarial scheduler and directed attack schedules; per-property step formulas', 'Every commit callback of every correct node in every recorded execution is checked by TLC against the chain of first commits per height (c01_fork). Executions: directed attack schedules (lock then Byzantine NEW_VIEW / standalone PREPREPARE / two elections / unauthenticated votes...) and random adversarial schedules (drops, duplicates, reordering, timeouts, ~200 Byzantine message templates incl. equivocation, forged/unsigned/replayed parts, cross-type and cross-view replays, any view/height) on real nodes; each step also conformance-checked against the specification. A fork explained by the known finding H2 (standalone PREPREPARE) is reported as KNOWN-FINDING, any other fork is a violation.', 'Trusted: the harness (HMAC keyring as ground truth for signatures, projection of messages/state, fake SPIs), the verif-tagged gate hook that steps the real WorkerLoop.Run one iteration at a time; coverage is sampled (random adversarial schedules on committees of 4..7 with weights, Byzantine weight <= f, plus directed schedules), not exhaustive. Design-level model checking of LHNode.tla composed with an adversary is added by the MC configs when present.', "DESIGN.md 5 C01"),
+    "C03": ("model_checking", 'TLC trace validation (Trace_Cluster.tla over LHNode.tla/LHMessages.tla) of executions of N real nodes under a random adversarial scheduler and directed attack schedules; per-property step formulas', 'At every commit callback the harness re-validates (block, proof) with strict ValidateBlockConsensus on a different correct node and TLC re-evaluates the certificate from its abstract form (distinct member signers with valid COMMIT signatures over this instance/height/hash, quorum weight, seed signature) - c03_committed_pair_rejected.', 'Trusted: the harness (HMAC keyring as ground truth for signatures, projection of messages/state, fake SPIs), the verif-tagged gate hook that steps the real WorkerLoop.Run one iteration at a time; coverage is sampled (random adversarial schedules on committees of 4..7 with weights, Byzantine weight <= f, plus directed schedules), not exhaustive. Design-level model checking of LHNode.tla composed with an adversary is added by the MC configs when present.', "DESIGN.md 5 C03"),
+    "C04": ("model_checking", 'TLC trace validation (Trace_Cluster.tla over LHNode.tla/LHMessages.tla) of executions of N real nodes under a random adversarial scheduler and directed attack schedules; per-property step formulas', 'TLC keeps the set of (height, block) pairs approved by ValidateBlockProposal on some correct node and requires every committed block to be in it (c04_unvalidated_block_committed); Byzantine leaders propose consumer-rejected blocks (prefix X / Y<k>) in view 0 and inside NEW_VIEW, with and without proofs.', 'Trusted: the harness (HMAC keyring as ground truth for signatures, projection of messages/state, fake SPIs), the verif-tagged gate hook that steps the real WorkerLoop.Run one iteration at a time; coverage is sampled (random adversarial schedules on committees of 4..7 with weights, Byzantine weight <= f, plus directed schedules), not exhaustive. Design-level model checking of LHNode.tla composed with an adversary is added by the MC configs when present.', "DESIGN.md 5 C04"),
+    "C07": ("model_checking", 'TLC trace validation (Trace_Cluster.tla over LHNode.tla/LHMessages.tla) of executions of N real nodes under a random adversarial scheduler and directed attack schedules; per-property step formulas', "Step formulas: a node stores a proposal / sends PREPARE for a view > 0 only in an event that delivers a NEW_VIEW satisfying ValidNewView (LHMessages.tla: leader-signed, authentic votes of distinct members of quorum weight, proposal = block of the highest valid proof or a consumer-validated fresh block); a NEW_VIEW sent by a correct node must itself satisfy the vote-set and lock rule. The standalone-PREPREPARE acceptance pinned by the repository's own test is the known finding H2.", 'Trusted: the harness (HMAC keyring as ground truth for signatures, projection of messages/state, fake SPIs), the verif-tagged gate hook that steps the real WorkerLoop.Run one iteration at a time; coverage is sampled (random adversarial schedules on committees of 4..7 with weights, Byzantine weight <= f, plus directed schedules), not exhaustive. Design-level model checking of LHNode.tla composed with an adversary is added by the MC configs when present.', "DESIGN.md 5 C07"),
+    "C08": ("model_checking", 'TLC trace validation (Trace_Cluster.tla over LHNode.tla/LHMessages.tla) of executions of N real nodes under a random adversarial scheduler and directed attack schedules; per-property step formulas', "Step formula: a delivered PREPREPARE/PREPARE/COMMIT/VIEW_CHANGE that changes the node's projected state or triggers a send must satisfy AuthenticFor (valid signature of a committee member, this instance and height, header type = container, role: leader / non-leader / addressed leader / valid share, view not stale, valid prepared proof); stale or foreign NEW_VIEW must have no effect; after a round start every stored message must be explained by an authentic message the reference filter would have cached.", 'Trusted: the harness (HMAC keyring as ground truth for signatures, projection of messages/state, fake SPIs), the verif-tagged gate hook that steps the real WorkerLoop.Run one iteration at a time; coverage is sampled (random adversarial schedules on committees of 4..7 with weights, Byzantine weight <= f, plus directed schedules), not exhaustive. Design-level model checking of LHNode.tla composed with an adversary is added by the MC configs when present.', "DESIGN.md 5 C08"),
+    "C09": ("model_checking", 'TLC trace validation (Trace_Cluster.tla over LHNode.tla/LHMessages.tla) of executions of N real nodes under a random adversarial scheduler and directed attack schedules; per-property step formulas', "Step formulas on every VIEW_CHANGE and NEW_VIEW a real node emits: a prepared node's vote carries a valid proof of exactly its prepared view, the stored proposal's hash and block; a NEW_VIEW embeds exactly the stored votes and re-proposes the block of the highest proof (fresh proposal only if no vote has a proof).", 'Trusted: the harness (HMAC keyring as ground truth for signatures, projection of messages/state, fake SPIs), the verif-tagged gate hook that steps the real WorkerLoop.Run one iteration at a time; coverage is sampled (random adversarial schedules on committees of 4..7 with weights, Byzantine weight <= f, plus directed schedules), not exhaustive. Design-level model checking of LHNode.tla composed with an adversary is added by the MC configs when present.', "DESIGN.md 5 C09"),
+    "C10": ("model_checking", 'TLC trace validation (Trace_Cluster.tla over LHNode.tla/LHMessages.tla) of executions of N real nodes under a random adversarial scheduler and directed attack schedules; per-property step formulas', "History formulas over each node's sent stream: one proposal / PREPARE / COMMIT hash per (height, view), PREPARE only for the stored proposal and never as leader, COMMIT only with a prepared certificate or commit quorum in the node's storage at that moment, VIEW_CHANGE views strictly increasing, nothing proposed/prepared below the current view.", 'Trusted: the harness (HMAC keyring as ground truth for signatures, projection of messages/state, fake SPIs), the verif-tagged gate hook that steps the real WorkerLoop.Run one iteration at a time; coverage is sampled (random adversarial schedules on committees of 4..7 with weights, Byzantine weight <= f, plus directed schedules), not exhaustive. Design-level model checking of LHNode.tla composed with an adversary is added by the MC configs when present.', "DESIGN.md 5 C10"),
+    "C11": ("model_checking", 'TLC trace validation (Trace_Cluster.tla over LHNode.tla/LHMessages.tla) of executions of N real nodes under a random adversarial scheduler and directed attack schedules; per-property step formulas', 'Whenever the schedule delivers a genuine message of a correct node to a correct peer that satisfies the stated precondition (same height, view not higher, no proposal yet, addressed leader...), TLC requires the effect (adoption / vote stored / PREPARE or COMMIT stored). Adversary templates poison producers (outsider PREPARE in proofs, cross-typed headers, stripped blocks).', 'Trusted: the harness (HMAC keyring as ground truth for signatures, projection of messages/state, fake SPIs), the verif-tagged gate hook that steps the real WorkerLoop.Run one iteration at a time; coverage is sampled (random adversarial schedules on committees of 4..7 with weights, Byzantine weight <= f, plus directed schedules), not exhaustive. Design-level model checking of LHNode.tla composed with an adversary is added by the MC configs when present.', "DESIGN.md 5 C11"),
+    "C12": ("model_checking", 'TLC trace validation (Trace_Cluster.tla over LHNode.tla/LHMessages.tla) of executions of N real nodes under a random adversarial scheduler and directed attack schedules; per-property step formulas', 'Cluster part: garbage, truncated, bit-flipped content and well-formed messages with extreme views/heights (2^31, 2^32, 2^63, 2^64-1), empty ids etc. are injected at random points of runs of real nodes; TLC requires that no step panics, that unparseable content changes nothing, and the rest of the run still conforms (and commits). Runtime part (main loop, API entry points, recovery) is added by the runtime checks when built.', 'Trusted: the harness (HMAC keyring as ground truth for signatures, projection of messages/state, fake SPIs), the verif-tagged gate hook that steps the real WorkerLoop.Run one iteration at a time; coverage is sampled (random adversarial schedules on committees of 4..7 with weights, Byzantine weight <= f, plus directed schedules), not exhaustive. Design-level model checking of LHNode.tla composed with an adversary is added by the MC configs when present.', "DESIGN.md 5 C12"),
+    "C17": ("model_checking",
+            "TLC: Filter.tla complete state graph with delivery history + TLC validation of tree traces of the real RawMessageFilter (all operation sequences up to a depth, random ones) + in-situ check on real WorkerLoops (Trace_Cluster c17 tag)",
+            "Filter.tla models the height filter, the one-height future cache and the worker's re-entrant drain (a delivery may commit and start the next round inside the drain); TLC checks own-height-only, eligibility, at-most-once and FIFO on its complete state graph (heights 0..3, 4 messages quick; 0..4, 5 messages thorough). The real RawMessageFilter + state.State are driven through every operation sequence up to depth 3 (quick) / 4 (thorough) and random sequences with a handler that commits on demand; TLC judges every operation. In situ: every Store* call of every real node in the cluster runs must be for the height of the term that made it.",
+            "Trusted: harness glue around the filter mirrors WorkerLoop.onNewConsensusRound; guaranteed delivery is read as 'no accepted-for-caching message above H before the node starts H' (the cache keeps one height).",
+            "DESIGN.md 5 C17"),
 }
 
 PENDING_REASON = "check not built yet in this round; planned per DESIGN.md section 5 (no claim is made until a sound check exists)"
